@@ -1258,6 +1258,24 @@ def run(index, rep, tier):
                           "%s computes `%s` where the divisor was converted from input text, inside a handler that does not cover ZeroDivisionError: a tree weight comment `[&W 1/0]` makes the reader fail with that internal error instead of the invalid-value parse error written for malformed weights" % (f.qualname, norm(b)[:40]))
         rep.floor("R20.14", "divisions by numbers read from the document", 1, ndiv)
 
+    # ---- R20.15 a contradictory FORMAT statement is a parse error
+    with rep.section("R20.15"):
+        rep.rule("R20.15", "a contradictory FORMAT statement is a parse error: where the NEXUS reader builds a state alphabet from the document's SYMBOLS / MISSING / GAP values (a constructor that raises ValueError for a symbol defined twice) the call sits in a handler that turns ValueError into a reader error")
+        nsa = 0
+        for f in sm.fns:
+            if f.module.name != "dendropy.dataio.nexusreader":
+                continue
+            pm = None
+            for c in calls_in(f.node):
+                if get_kwarg(c, "fundamental_states") is None or "alphabet" not in norm(c.func).lower():
+                    continue
+                nsa += 1
+                pm = pm or parent_map(f.node)
+                ok = _in_try_catching(pm, c, ("ValueError", "Exception", None))
+                rep.check(ok, "R20.15", f.qualname, "state alphabet built from document values outside a ValueError handler", fn_where(f, c), "%s: `%s` is under a ValueError handler" % (f.name, norm(c.func)),
+                          "%s builds the state alphabet from the symbols, missing and gap characters the document declares with `%s(...)` outside any ValueError handler: `symbols=\"01?\"`, `missing=1` with symbols 01, or `missing=- gap=-` make the constructor raise `ValueError: State with symbol ... already defined`, which reaches the caller instead of a data-parse error" % (f.qualname, norm(c.func)))
+        rep.floor("R20.15", "alphabets built from document values", 1, nsa)
+
 
 def _branch_calls_raiser(cfg, n):
     for lab, t in n.succ:
